@@ -407,6 +407,16 @@ package interpreter
 //@ func autoConvert
 //@   trusted
 //@   modifies nothing
+// the query string of a request path: what follows its first "?"; qsrc(m): the query string a raw-parameter map was split from
+//@ spec func qIdx(p string) int = libcall(strings.Index, p, "?")
+//@ spec func queryOf(p string) string = ite(qIdx(p) == -1, "", p[qIdx(p)+1:len(p)])
+//@ spec func qsrc(m map[string][]string) string
+//@ func ExtractRawQueryParams
+//@   modifies nothing
+//@   summary err == nil ==> result != nil && qsrc(result) == queryOf(path)
+//@   loop 1 invariant result != nil && fresh(result) && forall(k, string, has(result, k) ==> cap(result[k]) == 0 || fresh(result[k]))
+//@ func (*Interpreter).ExecuteRoute
+//@   callpre interpreter.ProcessQueryParams qsrc(arg0) == queryOf(request.Path)
 //@ func ProcessQueryParams
 //@   modifies nothing
 //@   loop 2 invariant 0 <= rangeidx && forall(k, 0, rangeidx, declarations[k].Required && declarations[k].Default == nil ==> has(rawParams, declarations[k].Name) && len(rawParams[declarations[k].Name]) > 0)
